@@ -698,6 +698,16 @@ Example C20_round_example_no_overflow :
   = [true; true; true; true; true; true; true].
 Proof. vm_compute. reflexivity. Qed.
 
+(* hypotheses of C20_ieee_length_finite and C20_ieee_length_minus_mdfe_finite
+   (length 1000, minimum distance from the end 1 * 10.0 = 10) *)
+Example C20_round_example_mdfe :
+  B2SF exMdfe = SpecFloat.S754_finite false 5629499534213120 (-49) /\ B2R exMdfe = 10%R.
+Proof. exact (conj ex_mdfe_sf (proj1 ex_mdfe_R)). Qed.
+Example C20_ieee_length_theorems_nonvacuous :
+  D.lt (p_total exP) D.zero = false /\
+  is_finite exLen = true /\ is_finite exMdfe = true /\ (0 <= B2R exLen)%R /\ (0 <= B2R exMdfe)%R.
+Proof. exact ex_len_hyps. Qed.
+
 (* hypotheses of C20_ieee_tick_distance_error(_relative), _tick_progress_error,
    _tick_before_end, _first_rejected_sum, _tick_time_error and
    _span_weakly_chronological (forward span 0 and reversed span 1), together,
